@@ -80,6 +80,18 @@ fn c08_prefix_6x6() {
 }
 
 #[kani::proof]
+#[kani::unwind(9)]
+fn c08_prefix_7x7() {
+    check::<7, 7>();
+}
+
+#[kani::proof]
+#[kani::unwind(9)]
+fn c08_prefix_2x7() {
+    check::<2, 7>();
+}
+
+#[kani::proof]
 #[kani::unwind(5)]
 fn c08_prefix_3x3() {
     check::<3, 3>();
